@@ -1,7 +1,7 @@
 """C12: verify accepts exactly what decrypt accepts; verify writes nothing; inputs stay intact."""
 from props.suite import *
 
-THEOREMS = ["C12_decrypt_accepts_only_what_verify_accepts", "C12_verdicts_coincide_on_domain"]
+THEOREMS = ["C12_decrypt_accepts_only_what_verify_accepts", "C12_verdicts_coincide_on_domain", "C12_verdicts_coincide"]
 K1 = "K1-cipher-mode-byte-unauthenticated"
 
 
